@@ -83,6 +83,32 @@ def handle (op : String) (a r : Json) : Except String Reply := do
     match checkHist conns msgs ((getArr r "ok").toOption.getD []) with
     | some (sig, why) => pure { m := m, prop := some false, why := why, sig := sig }
     | none => pure { m := m, prop := some true }
+  | "owner" =>
+    if let some e := optField r "error" then throw s!"harness error: {e.compress}"
+    let fired := (getBool r "fired").toOption.getD false
+    if !fired then
+      pure { m := jObj [("unmodelled", Json.str "the harness could not place the close between collection and send")], prop := none, why := "", sig := "" }
+    else
+    let stampAtCollection : Bool := Receptor.Facts.ads_stamp = "collect:Time=time.Now(),under-listenerLock;send:unstamped"
+    let rc : OwnerRace := { collectAt := 1, closeAt := 2, sendAt := 3 }
+    let node : Node := [1]
+    let svc : Svc := [2]
+    let inf : Info := ⟨0, []⟩
+    let listedAfter (stamp : Bool) (rev : Bool) : Bool :=
+      -- the owner emits the withdrawal first (the close happens before the send), then the stale advertisement
+      let seq := [(ownerWithdrawal node svc rc, ([9] : Node)), (ownerAd stamp node svc inf rc, [9])]
+      let seq := if rev then seq.reverse else seq
+      !(listed (run Receptor.Facts.ads_tombstones { table := [], conns := [] } seq).1).isEmpty
+    let obsOf (stamp : Bool) : Json :=
+      jObj [("fired", Json.bool true), ("messages", jNat 2),
+            ("ad_not_after_withdrawal", Json.bool (decide ((ownerAd stamp node svc inf rc).time ≤ (ownerWithdrawal node svc rc).time))),
+            ("listed", jArr [Json.bool (listedAfter stamp false), Json.bool (listedAfter stamp true)])]
+    let m := obsOf stampAtCollection
+    let spec := obsOf true
+    let holds := canonEq r spec
+    pure { m := m, prop := some holds,
+           why := if holds then "" else "a listener closed while the owner's advertisement round was under way: the stale advertisement is newer than the withdrawal and the closed service is listed again by other nodes",
+           sig := if holds then "" else "C18/owner-round-resurrects-closed-service" }
   | _ => throw s!"bad-op ads {op}"
 
 end Receptor.Drive.Ads
